@@ -8,13 +8,16 @@ package main
 
 import (
 	"math/rand"
+	"os"
 	"strings"
 	"sync"
 )
 
 func mfFuzzTargets() [][2]string {
 	return [][2]string{{"uri", "stream"}, {"uripost", "stream"}, {"raw", "stream"}, {"jsonline", "stream"},
-		{"jsonarray", "stream"}, {"grpcjson", "stream"}, {"grpcjson", "continue"}, {"uripost", "preload"}, {"raw", "preload"}}
+		{"jsonarray", "stream"}, {"grpcjson", "stream"}, {"grpcjson", "continue"}, {"uripost", "preload"}, {"raw", "preload"},
+		// scenario descriptions (bundled payloads): whole-file inputs, outcome alphabet only
+		{"http_hcl", "preload"}, {"http_yaml", "preload"}, {"grpc_hcl", "preload"}, {"grpc_yaml", "preload"}}
 }
 
 type mfValid struct {
@@ -79,13 +82,10 @@ func mfRunBytes(format, mode string, data []byte) mfRunResult {
 	return mfRunProvider(mfHTTPProvider(format, mode, data), mfProjectHTTP, 0)
 }
 
-func mfRunFuzz(j mfJob) mfLine {
-	v := mfValidFile(j.Fmt, j.Mode)
-	rnd := rand.New(rand.NewSource(j.Seed*7919 + int64(len(j.Fmt))*131 + int64(len(j.Mode))))
-	data := append([]byte{}, v.data...)
-	first := len(data)
+func mfMutate(rnd *rand.Rand, orig []byte) (data []byte, first int, opName string) {
+	data = append([]byte{}, orig...)
+	first = len(data)
 	op := rnd.Intn(4)
-	opName := ""
 	switch op {
 	case 0, 1: // bit flips
 		opName = "bitflip"
@@ -112,6 +112,16 @@ func mfRunFuzz(j mfJob) mfLine {
 		ins := append([]byte{}, data[a:b]...)
 		data = append(append(append([]byte{}, data[:first]...), ins...), data[first:]...)
 	}
+	return
+}
+
+func mfRunFuzz(j mfJob) mfLine {
+	rnd := rand.New(rand.NewSource(j.Seed*7919 + int64(len(j.Fmt))*131 + int64(len(j.Mode))))
+	if strings.Contains(j.Fmt, "_") {
+		return mfRunDescFuzz(j, rnd)
+	}
+	v := mfValidFile(j.Fmt, j.Mode)
+	data, first, opName := mfMutate(rnd, v.data)
 	intact := 0
 	for _, e := range v.ends {
 		if e <= first {
@@ -138,4 +148,27 @@ func mfRunFuzz(j mfJob) mfLine {
 		info["file"] = trunc(string(data), 1500)
 	}
 	return mfLine{K: "fuzz", Format: j.Fmt, Mode: j.Mode, Seed: j.Seed, Intact: intact, Same: same, Res: res, Evs: []mfEvent{}, Info: info}
+}
+
+// byte-level mutation of a bundled scenario payload: construct -> run -> prepare -> post; only the outcome
+// alphabet applies (a description is read as a whole)
+func mfRunDescFuzz(j mfJob, rnd *rand.Rand) mfLine {
+	name, text, files := mfRenderDesc(mfCase{Kind: "desc", Format: j.Fmt, Cls: "d_none"})
+	data, first, opName := mfMutate(rnd, []byte(text))
+	if dump := os.Getenv("VERIF_C13_DUMP"); dump != "" {
+		os.WriteFile(dump, data, 0o644) // debugging aid: the input of a job that never returns
+	}
+	evs, info := mfDescPipeline(j.Fmt, name, string(data), files)
+	res := "ok"
+	last := evs[len(evs)-1]
+	switch {
+	case last.Ev == "Panic":
+		res = "panic"
+		info["panic"] = last.Arg
+		info["file"] = trunc(string(data), 6000)
+	case last.Ev == "End" && last.Arg == "rejected":
+		res = "error"
+	}
+	info["op"], info["first"] = opName, first
+	return mfLine{K: "fuzz", Format: j.Fmt, Mode: j.Mode, Seed: j.Seed, Res: res, Evs: []mfEvent{}, Info: info}
 }
